@@ -147,7 +147,7 @@ func (db *Center) LastSuffrageProofBytes() ( //revive:disable-line:function-resu
 		switch m, found, err := p.LastBlockMap(); {
 		case err != nil, !found:
 			return enchint, nil, nil, false, base.NilHeight, err
-		default:
+		case i == 0: // NOTE last height is the height of the newest database
 			lastheight = m.Manifest().Height()
 		}
 
